@@ -57,7 +57,7 @@ def run(ctx):
         "mismatches": sum(len(c.mismatch) for c in cs), "oracle_failures": sum(len(c.oracle_fail) for c in cs),
     })
     if ctx.thorough() and not problems:
-        okc, outc = leanchecker(["PestModel.Thm.C11", "PestModel.Model.Stack"])
+        okc, outc = leanchecker(MODULE + ["PestModel.Model.Stack"])
         cov["leanchecker"] = "ok" if okc else outc
     ctx.evidence(level_of(ctx.prop), cov, [
         "theorems are about PestModel.Stack.step (hand-written model of pest/src/stack.rs with head-as-top lists); tie = correspondence through the public API of pest::Stack<u32>",
